@@ -309,19 +309,13 @@ def case_history(ctx, rng):
             elif act == 'linalg':
                 m = np.array([[abs(a) + 3.0 + abs(b.value), b], [b, abs(a) + 4.0 + abs(b.value)]])
                 which = str(rng.choice(['inv', 'matmul', 'det', 'eigh', 'cholesky', 'svd']))
-                if which == 'inv':
-                    res = pe.linalg.inv(m)
-                elif which == 'matmul':
-                    res = pe.linalg.matmul(m, m)
-                elif which == 'det':
-                    res = pe.linalg.det(m)
-                elif which == 'eigh':
-                    res = list(pe.linalg.eigh(m))
-                elif which == 'cholesky':
-                    res = pe.linalg.cholesky(m)
-                else:
-                    res = list(pe.linalg.svd(m))
-                res = res.ravel().tolist() if isinstance(res, np.ndarray) else res
+                # the library evaluates the operation on the matrices of replica means as well; those can
+                # leave the domain (not positive definite / singular) although the central matrix is fine
+                try:
+                    res = linalg_op(pe, which, m)
+                except np.linalg.LinAlgError:
+                    ctx.count('linalg_replica_mean_matrix_outside_domain')
+                    res = None
             elif act == 'json':
                 s = pe.input.json.create_json_string([a, b, [a, a * 2.0]], indent=int(rng.integers(0, 2)))
                 res = pe.input.json.import_json_string(s, verbose=False)
@@ -366,6 +360,22 @@ def case_history(ctx, rng):
     if len(kinds) >= 3 and mixed >= 1:
         ctx.nontrivial.add(digest('history', script, any_digest(pool[0])))
     ctx.sample({'history': script, 'pool_names': [list(o.names) for o in pool[:6]]})
+
+
+def linalg_op(pe, which, m):
+    if which == 'inv':
+        res = pe.linalg.inv(m)
+    elif which == 'matmul':
+        res = pe.linalg.matmul(m, m)
+    elif which == 'det':
+        res = pe.linalg.det(m)
+    elif which == 'eigh':
+        res = list(pe.linalg.eigh(m))
+    elif which == 'cholesky':
+        res = pe.linalg.cholesky(m)
+    else:
+        res = list(pe.linalg.svd(m))
+    return res.ravel().tolist() if isinstance(res, np.ndarray) else res
 
 
 def collect_flat(x, out, depth=0):
